@@ -182,7 +182,8 @@ func c09MiscSpecs() []*edt.Spec {
 			Formula: map[string]func(e *edt.Env) edt.Tri{"delegates": always},
 		},
 		{
-			Pkg: "primitives/ed25519", Func: "(*BatchVerifier).Reset", SymLoops: true, MinPaths: 2,
+			// (the loop over the entries clears a field of a per-iteration copy: it has no effect and may be absent)
+			Pkg: "primitives/ed25519", Func: "(*BatchVerifier).Reset", SymLoops: true, MinPaths: 1,
 			Abbrev: [][2]string{{"φL0.0", "LJ"}},
 			Vars:   batchVars,
 			Classify: func(p *edt.Path, out string, e *edt.Env) string {
@@ -196,7 +197,12 @@ func c09MiscSpecs() []*edt.Spec {
 			},
 			Formula: map[string]func(e *edt.Env) edt.Tri{
 				"iterate": func(e *edt.Env) edt.Tri { return e.V("more0") },
-				"done":    func(e *edt.Env) edt.Tri { return edt.Not(e.V("more0")) },
+				"done": func(e *edt.Env) edt.Tri {
+					if !e.Known("more0") {
+						return edt.T // no loop at all
+					}
+					return edt.Not(e.V("more0"))
+				},
 			},
 			Extra: func(p *edt.Path, out, class string, e *edt.Env, ab func(string) string) string {
 				if class != "done" {
